@@ -72,8 +72,7 @@ theorem C03_prefix_typed_found (S : Sorter) (hS : SorterOK S) (E : Env)
     (w : WordShape) (hw : w ∈ r.title.words) (k : Nat) (hk : 1 ≤ k)
     (hlast : ((wchars r.title w).take k).getLast?.map E.U.isAlnum = some true)
     (hcomp : compose E.T ((wchars r.title w).take k) = (wchars r.title w).take k)
-    (hred : reduce E.T ((wchars r.title w).take k) = none)
-    (hup : ∀ c ∈ (wchars r.title w).take k, E.U.isUppercase c = false) :
+    (hred : reduce E.T ((wchars r.title w).take k) = none) :
     ∃ res ∈ ((Store.new E.K).run S E.K order ops).search S E.K order
         (tokenizeQuery Gen.srcProg E ((wchars r.title w).take k)),
       res.id = r.id ∧
@@ -81,17 +80,18 @@ theorem C03_prefix_typed_found (S : Sorter) (hS : SorterOK S) (E : Env)
               (scoreHit E.K order (tokenizeQuery Gen.srcProg E ((wchars r.title w).take k)) r) := by
   obtain ⟨s', hs'⟩ := reachable_title_tokenized S E E.K order ops hops ix r hr
   have hst : Stable E ((wchars r.title w).take k) := by
-    rw [hs'] at hw hlast hcomp hred hup ⊢
-    exact stable_of_title_prefix E hU hT hSt s' w hw k hk hlast hcomp hred hup
+    rw [hs'] at hw hlast hcomp hred ⊢
+    exact stable_of_title_prefix E hU hT hSt s' w hw k hk hlast hcomp hred
   exact C03_typed_core S hS E hU hT hSt hC hN hK hP order ops hops hlim ix r hr w hw k hst
 
 /-- **C03 for the typed string.** What a user learns: in a store (reached from `Store::new` by any operations,
     titles added through `tokenize_record`) holding no more records than its limit, take a record, a word `w` of its
-    tokenised title and `k ≥ 1`. Let `p` be the first `k` characters of the word. If `p` ends in a letter or digit,
-    is left unchanged by the language's compose / reduce tables (it does not end inside an accent sequence) and
-    contains no upper-case character (only the un-lowerable capitals of finding D4 could be there), then
-    **searching for the raw string `p`** returns the record — for the generated constants, pipelines and score
-    order, in every language. No premise about the tokenisation of `p` is left.
+    tokenised title and `k ≥ 1`. Let `p` be the first `k` characters of the word. If `p` ends in a letter or digit
+    and is left unchanged by the language's compose / reduce tables (it does not end inside an accent sequence),
+    then **searching for the raw string `p`** returns the record — for the generated constants, pipelines and
+    score order, in every language. No premise about the tokenisation of `p` is left, and none about upper-case
+    characters: the characters of a stored title are their own lower-case forms (`wchars_title_lower_fixed`),
+    which is all the unconditional `TextOwn::lower` (D5 fix) needs to leave `p` alone.
     (`k` may exceed the word length: then `p` is the whole word.) -/
 theorem C03_prefix_typed_found_src (S : Sorter) (hS : SorterOK S)
     (U : Unicode) (T : LangTables) (stem : List Nat → Nat)
@@ -106,8 +106,7 @@ theorem C03_prefix_typed_found_src (S : Sorter) (hS : SorterOK S)
     (w : WordShape) (hw : w ∈ r.title.words) (k : Nat) (hk : 1 ≤ k)
     (hlast : ((wchars r.title w).take k).getLast?.map U.isAlnum = some true)
     (hcomp : compose T ((wchars r.title w).take k) = (wchars r.title w).take k)
-    (hred : reduce T ((wchars r.title w).take k) = none)
-    (hup : ∀ c ∈ (wchars r.title w).take k, U.isUppercase c = false) :
+    (hred : reduce T ((wchars r.title w).take k) = none) :
     ∃ res ∈ ((Store.new Gen.srcConsts).run S Gen.srcConsts Gen.srcScoreOrder ops).search S Gen.srcConsts
         Gen.srcScoreOrder (tokenizeQuery Gen.srcProg (Gen.srcProg.env U T stem) ((wchars r.title w).take k)),
       res.id = r.id ∧
@@ -116,7 +115,7 @@ theorem C03_prefix_typed_found_src (S : Sorter) (hS : SorterOK S)
                 (tokenizeQuery Gen.srcProg (Gen.srcProg.env U T stem) ((wchars r.title w).take k)) r) :=
   C03_prefix_typed_found S hS (Gen.srcProg.env U T stem) hU hT hSt costsOK_src gateNumsOK_src
     (show 1 ≤ Gen.srcConsts.sortFactor by decide) (show 1 ≤ Gen.srcConsts.prepFactor by decide) Gen.srcScoreOrder
-    ops hops hlim ix r hr w hw k hk hlast hcomp hred hup
+    ops hops hlim ix r hr w hw k hk hlast hcomp hred
 
 /-- **C03 for ASCII prefixes.** If the first `k ≥ 1` characters of a title word are ASCII lower-case letters or
     digits, typing them returns the record: for the Unicode oracle only the 36 facts of `AsciiFacts` are needed
@@ -179,8 +178,8 @@ theorem C04_single_edit_typed_found (S : Sorter) (hS : SorterOK S) (E : Env)
 /-- **C04 for the typed string.** What a user learns: in a store holding no more records than its limit, take a
     word of a record's tokenised title with at least five characters, three of them distinct, and make ONE typing
     error in it (substitute, insert, delete a character, or swap two adjacent ones). If the misspelt word `cs'` is
-    `Stable` (one word in normal form: no separator, letter/digit at both ends, lower-case, untouched by the
-    language's tables), **searching for the raw string `cs'`** returns the record, in every language. -/
+    `Stable` (one word in normal form: no separator, letter/digit at both ends, every character its own lower-case
+    form, untouched by the language's tables), **searching for the raw string `cs'`** returns the record, in every language. -/
 theorem C04_single_edit_typed_found_src (S : Sorter) (hS : SorterOK S)
     (U : Unicode) (T : LangTables) (stem : List Nat → Nat)
     (hU : UnicodeFacts U Gen.srcConsts) (hTb : TablesOK T = true) (hSt : StemHyp (Gen.srcProg.env U T stem))
@@ -383,7 +382,7 @@ example : ∃ res ∈ ((Store.new Gen.srcConsts).run exSorter Gen.srcConsts Gen.
     C03_prefix_typed_found_src exSorter exSorter_ok toyU Gen.lang_de toyStem toyU_facts tablesOK_de
       (fun _ => toyStem_bounded _) deOps hops (by decide +kernel) 0 deRec (by decide +kernel) deW (by decide +kernel)
       5 (by decide) (by rw [deW_chars]; decide +kernel) (by rw [deW_chars]; decide +kernel)
-      (by rw [deW_chars]; decide +kernel) (by rw [deW_chars]; decide +kernel)
+      (by rw [deW_chars]; decide +kernel)
   rw [deW_chars] at h1
   exact ⟨res, h1, h2⟩
 
